@@ -465,6 +465,31 @@ func TestNodeGetters(t *testing.T) {
 					}
 				}
 			}
+			// a read view derived from the node on request: constructible iff it tiles the node's buckets; its sums, QPS and
+			// previous-window QPS follow its OWN geometry (also when its interval equals the node's metric interval)
+			{
+				vs := uint32(rapid.IntRange(1, 4).Draw(t, "viewSamples"))
+				vi := rapid.SampledFrom([]uint32{g.mi, g.mi, uint32(B), 2 * uint32(B), 1000, 2000, uint32(I)}).Draw(t, "viewInterval")
+				rs, err := node.GenerateReadStat(vs, vi)
+				if tiles(vs, vi, g.gn, g.gi) != (err == nil) {
+					t.Fatalf("node.GenerateReadStat(%d,%d) over array(%d,%d): tiles=%v but error=%v", vs, vi, g.gn, g.gi, tiles(vs, vi, g.gn, g.gi), err)
+				}
+				if err == nil {
+					VL, vvb := uint64(vi), uint64(vi/vs)
+					for k := 0; k < 4; k++ {
+						want := evs.Sum(k, now, B, VL)
+						if got := rs.GetSum(base.MetricEvent(k)); got != want {
+							t.Fatalf("t=%d derived view(%d,%d).GetSum(%d)=%d, reference %d", now, vs, vi, k, got, want)
+						}
+						if VL+vvb <= I && now > vvb {
+							wantP := float64(evs.Sum(k, now-vvb, B, VL)) / (float64(vi) / 1000)
+							if got := rs.GetPreviousQPS(base.MetricEvent(k)); got != wantP {
+								t.Fatalf("t=%d derived view(%d,%d).GetPreviousQPS(%d)=%v, reference %v (the previous window ends one VIEW bucket = %d ms ago)", now, vs, vi, k, got, wantP, vvb)
+							}
+						}
+					}
+				}
+			}
 			cpl := evs.Sum(model.Complete, now, B, L)
 			wantAvg := float64(0)
 			if cpl > 0 {
